@@ -393,7 +393,7 @@ StepStmt(s, x, rest) ==
     [] x.k = "block" -> [s EXCEPT !.ctl = [i \in 1..Len(x.b) |-> S(x.b[i])] \o rest]
     [] x.k = "if" -> [s EXCEPT !.ctl = <<E(x.c), [t |-> "if", th |-> x.th, el |-> x.el]>> \o rest]
     [] x.k = "while" -> [s EXCEPT !.ctl = <<[t |-> "loop", kind |-> "while", c |-> x.c, post |-> x.c, b |-> x.b, ph |-> "test", base |-> Len(s.vs)]>> \o rest]
-    [] x.k = "for" -> [s EXCEPT !.ctl = <<E(x.init), [t |-> "drop"], [t |-> "loop", kind |-> "for", c |-> x.c, post |-> x.post, b |-> x.b, ph |-> "test", base |-> Len(s.vs)]>> \o rest]
+    [] x.k = "for" -> [s EXCEPT !.ctl = <<E(x.init), [t |-> "hdrdrop"], [t |-> "loop", kind |-> "for", c |-> x.c, post |-> x.post, b |-> x.b, ph |-> "test", base |-> Len(s.vs)]>> \o rest]
     [] x.k = "forin" -> ForInEnter(s, x, rest)
     [] x.k \in {"break", "continue", "exit", "next"} -> [s EXCEPT !.ctl = rest, !.sig = x.k]
     [] x.k = "return" ->
@@ -465,7 +465,7 @@ StepOp(s, it, rest) ==
                     [] OTHER -> FALSE          \* function, regex (no such values in the core), names that are no type
          IN [s EXCEPT !.ctl = rest, !.vs = <<VBool(r)>> \o Tail(s.vs)]
     [] it.t = "tobool" -> [s EXCEPT !.ctl = rest, !.vs = <<VBool(Truthy(s.vs[1]))>> \o Tail(s.vs)]
-    [] it.t = "drop" -> [s EXCEPT !.ctl = rest, !.vs = Tail(s.vs)]
+    [] it.t \in {"drop", "hdrdrop"} -> [s EXCEPT !.ctl = rest, !.vs = Tail(s.vs)]
     [] it.t = "store" ->    \* the value of an assignment is the assigned value; scalars are copied
          Mark([s EXCEPT !.ctl = rest, !.frames = Assign(s.frames, it.n, s.vs[1])],
               Captured(s.frames, it.n) \/ s.vs[1].t = "unset", "store " \o it.n)
@@ -512,7 +512,7 @@ StepOp(s, it, rest) ==
     [] it.t = "loop" /\ it.kind = "forin" -> ForInStep(s, it, rest)
     [] it.t = "loop" ->
          IF it.ph = "test" THEN [s EXCEPT !.ctl = <<E(it.c), [t |-> "looptest"]>> \o s.ctl]
-         ELSE [s EXCEPT !.ctl = <<E(it.post), [t |-> "drop"], [it EXCEPT !.ph = "test"]>> \o rest]
+         ELSE [s EXCEPT !.ctl = <<E(it.post), [t |-> "hdrdrop"], [it EXCEPT !.ph = "test"]>> \o rest]
     [] it.t = "looptest" ->
          \* rest[1] is the loop item
          IF Truthy(s.vs[1])
@@ -578,6 +578,9 @@ StepSignal(s, it, rest) ==
     [] it.t = "loop" /\ s.sig = "continue" ->    \* the loop item stays: post / test next
          [s EXCEPT !.sig = "none", !.vs = SubSeq(s.vs, Len(s.vs) - it.base + 1, Len(s.vs))]
     [] it.t = "matchk" -> [s EXCEPT !.ctl = rest, !.frames = Tail(s.frames), !.depth = s.depth - 1]   \* every signal leaves the arm's frame
+    \* a signal raised while a clause of a loop's header is evaluated (its condition, the init or post clause of
+    \* a for) leaves that loop too: a break / continue there belongs to the loop around it
+    [] it.t \in {"looptest", "hdrdrop"} -> [s EXCEPT !.ctl = Tail(rest)]
     [] it.t = "callk" /\ s.sig = "return" ->
          \* the returned value is on top of the value stack; values pushed by the callee's
          \* unfinished expressions below it are discarded
